@@ -317,7 +317,7 @@ func (e *Engine) loopEnter(fr *frame, li *loopInfo, pred *ssa.BasicBlock, st *St
 				changed = true
 			}
 		}
-		e.nextRgn = baseRgn + 1000*uint32(iter+1) // keep dry-run regions disjoint from real ones
+		e.setRgn(baseRgn + 1000*uint32(iter+1)) // keep dry-run regions disjoint from real ones
 		if !changed {
 			break
 		}
@@ -325,7 +325,7 @@ func (e *Engine) loopEnter(fr *frame, li *loopInfo, pred *ssa.BasicBlock, st *St
 			ms.all = true
 		}
 	}
-	e.nextRgn = baseRgn + 6000
+	e.setRgn(baseRgn + 6000)
 	if fr.dry != nil {
 		// propagate to the enclosing dry run
 		for _, n := range ms.cells {
